@@ -64,9 +64,13 @@ fn cover_body<const N: usize>() {
     kani::assume(a < out.len() && b < out.len() && a != b);
     assert!(spec_valid(out[a]));
     assert!(out[a] != out[b]);
-    kani::cover!(out.len() < N);
+    if N >= 4 {
+        // a merge needs at least 4 siblings
+        kani::cover!(out.len() < N);
+    }
     kani::cover!(out.len() == N);
     kani::cover!(cin);
+    kani::cover!(!cin);
     core::mem::forget(out);
 }
 
@@ -127,52 +131,82 @@ pub fn c08_group4_merges() {
     core::mem::forget(out);
 }
 
-/// Order and multiplicity, N = 2 fully arbitrary valid cells (unsorted, possibly equal), real set
-/// membership test, bounded insertion sort with sort_unstable's contract:
-/// compact([a,b]) = compact([b,a]) = compact([a,a,b]).
+fn compact_ok(v: &[u64]) -> Option<Vec<u64>> {
+    match a5::compact(v) {
+        Ok(o) => Some(o),
+        Err(_) => {
+            assert!(false, "compact of valid cells returned Err");
+            None
+        }
+    }
+}
+
+fn any_two_cells() -> (u64, u64) {
+    let a: u64 = kani::any();
+    let b: u64 = kani::any();
+    kani::assume(spec_valid(a) && spec_valid(b) && res_stub(a) >= 0 && res_stub(b) >= 0);
+    (a, b)
+}
+
+/// Order, N = 2 fully arbitrary valid cells (unsorted, possibly equal), real set membership test,
+/// bounded insertion sort with sort_unstable's contract: compact([a,b]) = compact([b,a]), sorted,
+/// de-duplicated.
 #[kani::proof]
 #[kani::unwind(14)]
 #[kani::stub(alloc::fmt::format, fmt_stub)]
 #[kani::stub(<[u64]>::sort_unstable, sort_small)]
 #[kani::stub(a5::core::serialization::get_resolution, res_stub)]
-pub fn c08_prelude_2() {
+pub fn c08_prelude_swap() {
     warm();
-    let a: u64 = kani::any();
-    let b: u64 = kani::any();
-    kani::assume(spec_valid(a) && spec_valid(b) && res_stub(a) >= 0 && res_stub(b) >= 0);
-    let o1 = match a5::compact(&[a, b]) {
-        Ok(v) => v,
-        Err(_) => {
-            assert!(false);
-            return;
-        }
+    let (a, b) = any_two_cells();
+    let o1 = match compact_ok(&[a, b]) {
+        Some(v) => v,
+        None => return,
     };
-    let o2 = match a5::compact(&[b, a]) {
-        Ok(v) => v,
-        Err(_) => {
-            assert!(false);
-            return;
-        }
+    let o2 = match compact_ok(&[b, a]) {
+        Some(v) => v,
+        None => return,
     };
-    let o3 = match a5::compact(&[a, a, b]) {
-        Ok(v) => v,
-        Err(_) => {
-            assert!(false);
-            return;
-        }
-    };
-    assert!(o1.len() == o2.len() && o1.len() == o3.len());
+    assert!(o1.len() == o2.len());
     assert!(o1.len() == if a == b { 1 } else { 2 });
     let i: usize = kani::any();
     kani::assume(i < o1.len());
-    assert!(o1[i] == o2[i] && o1[i] == o3[i]);
+    assert!(o1[i] == o2[i]);
     if o1.len() == 2 {
         assert!(o1[0] < o1[1]);
+        assert!(o1[0] == if a < b { a } else { b });
     }
     kani::cover!(a == b);
     kani::cover!(a > b);
     core::mem::forget(o1);
     core::mem::forget(o2);
+}
+
+/// Multiplicity: compact([a,a,b]) = compact([a,b]) (duplicates are dropped, whatever their position).
+#[kani::proof]
+#[kani::unwind(14)]
+#[kani::stub(alloc::fmt::format, fmt_stub)]
+#[kani::stub(<[u64]>::sort_unstable, sort_small)]
+#[kani::stub(a5::core::serialization::get_resolution, res_stub)]
+pub fn c08_prelude_dup() {
+    warm();
+    let (a, b) = any_two_cells();
+    let o1 = match compact_ok(&[a, b]) {
+        Some(v) => v,
+        None => return,
+    };
+    let dup_first: bool = kani::any();
+    let o3 = match compact_ok(&if dup_first { [a, a, b] } else { [a, b, a] }) {
+        Some(v) => v,
+        None => return,
+    };
+    assert!(o1.len() == o3.len());
+    let i: usize = kani::any();
+    kani::assume(i < o1.len());
+    assert!(o1[i] == o3[i]);
+    kani::cover!(a != b && dup_first);
+    kani::cover!(a != b && !dup_first);
+    core::mem::forget(o1);
     core::mem::forget(o3);
 }
 
